@@ -3,11 +3,12 @@
    Objects (prefix form):  n | s <kind> <hex> | a <len> obj* | d <len> (<hexkey> obj)* |
                            r <ref> | t <len> (<hexkey> obj)* <dataid>
    Input lines:
-     <id> M|N <next0> <nsrc> (<ref> g obj | <ref> b)* <ncalls> (R <ref> | C obj | X <ref> obj)*
+     <id> M|N <next0> <nsrc> (<ref> g obj | <ref> b)* <nops> (R <ref> | C obj | V obj | X <ref> obj | P <i>)*
+          (V: Copy of a value whose result is kept; P <i>: Put(Alloc(), result of operation i))
           run the model copier (N: without the number of Puts); prints
             <id> ok <nputs> | <canon of the model's target from the call results>
           or <id> err <class>
-     <id> K <srcenc> <tgtenc> <nsrc> src* <ntgt> (<ref> obj)* <ntr> (<s> <t>)* <nroots> (obj obj)* <nobs> (<t> <flag>)*
+     <id> K <srcenc> <tgtenc> <n> (refs exempt by identity in the source)* <n> (... in the target)* <nsrc> src* <ntgt> (<ref> obj)* <ntr> (<s> <t>)* <nroots> (obj obj)* <nobs> (<t> <flag>)*
           certified checker on graphs read back from real files; prints
             <id> iso <0|1>
             <id>.cs <canon of the source from the source roots>
@@ -62,16 +63,24 @@ let parse_tgt_entry toks =
     ((n_of_string x, o), r')
   | [] -> failwith "bad target entry"
 
-let parse_call toks =
+(* an operation of a history, with the kind of root its result is *)
+type root_kind = Root | NoRoot | PutRoot
+
+let parse_op toks =
   match toks with
-  | "R" :: x :: r -> (CCopyRef (n_of_string x), r)
+  | "R" :: x :: r -> ((History.HCall (CCopyRef (n_of_string x)), Root), r)
   | "C" :: r ->
     let (o, r') = parse_obj r in
-    (CCopy o, r')
+    ((History.HCall (CCopy o), Root), r')
+  | "V" :: r ->
+    (* Copier.Copy of a value that is written later (or never) *)
+    let (o, r') = parse_obj r in
+    ((History.HCall (CCopy o), NoRoot), r')
   | "X" :: x :: r ->
     let (o, r') = parse_obj r in
-    (CRedirect (n_of_string x, o), r')
-  | _ -> failwith "bad call"
+    ((History.HCall (CRedirect (n_of_string x, o)), NoRoot), r')
+  | "P" :: i :: r -> ((History.HPut (nat_of_int (int_of_string i)), PutRoot), r)
+  | _ -> failwith "bad operation"
 
 let parse_pair toks =
   match toks with
@@ -117,23 +126,35 @@ let () =
     match words line with
     | id :: (("M" | "N") as op) :: next0 :: rest ->
       let (src, rest) = counted parse_src_entry rest in
-      let (calls, _) = counted parse_call rest in
-      let fuel = fuel_bound src calls in
-      (match run_calls src fuel calls (init (n_of_string next0)) with
+      let (ops, _) = counted parse_op rest in
+      let hops = Stdlib.List.map fst ops in
+      let fuel = History.hist_fuel src hops in
+      (match History.run_hist src fuel hops (History.hinit (n_of_string next0)) with
        | Res.Err c -> Printf.printf "%s err %s\n" id (string_of_cls c)
-       | Res.Ok (results, st) ->
-         (* results of Redirect calls are not roots *)
+       | Res.Ok h ->
+         let written = Stdlib.List.append h.History.hputs h.History.hst.puts in
          let roots =
            Stdlib.List.concat
              (Stdlib.List.map2
-                (fun c r -> match c with CRedirect _ -> [] | _ -> [r])
-                calls results)
+                (fun (_, k) r ->
+                  match k, r with
+                  | Root, _ -> [r]
+                  | NoRoot, _ -> []
+                  | PutRoot, ORef t ->
+                    (* the value that was written, as a direct object *)
+                    (match Stdlib.List.find_opt (fun (t', _) -> t' = t) h.History.hputs with
+                     | Some (_, v) -> [v]
+                     | None -> [])
+                  | PutRoot, _ -> [])
+                ops h.History.hres)
          in
-         let g = Checker.target_graph st.puts in
+         let g = Checker.target_graph written in
          Printf.printf "%s ok %s | %s\n" id
-           (if op = "M" then string_of_int (Stdlib.List.length st.puts) else "-")
+           (if op = "M" then string_of_int (Stdlib.List.length written) else "-")
            (string_of_canon (Checker.canon g roots)))
     | id :: "K" :: srcenc :: tgtenc :: rest ->
+      let (splain, rest) = counted (fun t -> match t with x :: r -> (n_of_string x, r) | [] -> failwith "bad ref") rest in
+      let (tplain, rest) = counted (fun t -> match t with x :: r -> (n_of_string x, r) | [] -> failwith "bad ref") rest in
       let (src, rest) = counted parse_src_entry rest in
       let (tgt, rest) = counted parse_tgt_entry rest in
       let (tr, rest) = counted parse_pair rest in
@@ -151,7 +172,7 @@ let () =
               (fun (t, flag) ->
                 let p =
                   if int_of_n flag = 2 then 2
-                  else int_of_n (StreamCrypt.predict_cipher src tr (srcenc = "1") (tgtenc = "1") t)
+                  else int_of_n (StreamCrypt.predict_cipher src tr (srcenc = "1") (tgtenc = "1") splain tplain t)
                 in
                 string_of_n t ^ ":" ^ string_of_int p)
               obs))
